@@ -80,7 +80,11 @@ def direct_oracle(c: B.Case):
             problems.append(f"an output depends on an unlisted argument: expected KeyError, got {exc or 'a model'}")
         return problems
     if c.model_proto is None:
-        return problems  # other exceptions (illegal programs, rank-less types) are not C03's business
+        # the generator makes legal programs (no leaks) whose inputs/outputs have a rank: a well-formed request must be served
+        if c.meta.get("legal", True) and not (isinstance(c.exc, ValueError) and "does not specify the shape" in str(c.exc)) \
+                and len(set(map(id, ins.values()))) == len(ins):
+            problems.append(f"well-formed request rejected: all dependencies are listed but build raised {exc}")
+        return problems
     m = c.model_proto
     depids = {id(v) for v in dep}
     want = [(k, v) for k, v in ins.items() if (not drop or id(v) in depids)]
